@@ -17,6 +17,9 @@ env = dict(os.environ, CARGO_TARGET_DIR="/tmp/seedwork/target-%s-%s" % (pid, n),
 def copy(name):
     d = os.path.join(work, name)
     subprocess.run(["rsync", "-a", "--exclude", "target", "--exclude", ".git", "/repo/", d + "/"], check=True)
+    # cargo keys a workspace member's fingerprint by its path relative to the workspace root and by source mtimes: two copies
+    # sharing one target directory can be handed each other's build.  Fresh mtimes force a rebuild of the crate in every copy.
+    subprocess.run("find %s -name '*.rs' -o -name Cargo.toml | xargs touch" % d, shell=True)
     return d
 def sh(cmd, cwd, timeout=1500):
     r = subprocess.run(cmd, cwd=cwd, shell=True, capture_output=True, text=True, env=env, timeout=timeout)
